@@ -83,10 +83,14 @@ reg(Spec("C20", "c20_words.cpp", needs=("shim", "optable"), custom="exhaustive",
               "equal the golden layout model, 44 dual-view bit pairs + the TeakLite limit flag agree, Set(Get()) is the identity "
               "without an active loop; D1i sampled values through 'mov #imm16, W' and 'push W'; D2: every first word with ar/arp "
               "operands x 96 / 512 generated ar/arp words: register moved and cells accessed by the interpreter equal what the "
-              "annotated disassembly names; one full pass of the project's generator: the register the disassembler names is "
+              "annotated disassembly names; D2m: the same cases under a generated addressing configuration (both cmd modes, modulo "
+              "/ bit reversal / end pointers / 7- and 16-bit steps, registers at buffer edges): every register named with a step "
+              "++0/++1/--1/++s/++2/--2 ends where the plain 'modr rN,<same step>[,dmod]' leaves it from the same state; one full pass of the project's generator: the register the disassembler names is "
               "pinned in its window. Non-trivial / distinct = (word, value).",
          assumptions=["golden layout transcribed from the pinned register.h and the verifier's flag strings (regression oracle)",
-                      "D2 runs with modulo and bit reversal off, end-pointer modes off, stepi=5, stepj=-3, distinct marker addresses",
+                      "D2 runs with modulo and bit reversal off, end-pointer modes off, stepi=5, stepj=-3, distinct marker addresses; D2m compares "
+                      "against the interpreter's own plain modr forms (a metamorphic relation: same printed step => same step), the starred "
+                      "steps ++2* / --2* have no plain counterpart and are counted, not compared",
                       "forms naming the same register twice and bkrepsto/bkreprst (frame pointer moves by the frame size) are exempt from the step clause"]))
 
 reg(Spec("C03", "c03_alu.cpp", needs=("shim", "optable"),
@@ -123,7 +127,10 @@ reg(Spec("C10", "c10_addr.cpp", needs=("shim", "optable"),
               "modr_e/dmod forms reaching all eight step kinds, and ten load/store/ALU forms through [Rn]step), form-stratified; state "
               "from a rapidcheck-generated 64-bit value with per-register mode mix (linear / modulo / bit-reversed / end-pointer), "
               "structured mod values (2^k-1, 2^k, small, uniform 0..511), start addresses at buffer edges / 0x0000 / 0xFFFF; "
-              "register afterwards and data cell accessed vs the independent model. modulo_walk: 2*(mod+1)+3 consecutive +1 / -1 / "
+              "register afterwards and data cell accessed vs the independent model. ar_step: the same for every form addressed through "
+              "ar/arp words (all table entries with ArRn/ArStep/ArpRn/ArpStep operands except the bkrep frame-pointer forms, form-stratified): "
+              "the annotated disassembler names registers, steps and modulo-disable flags (dmod, dmodi/j, e/d-mod), each named register "
+              "afterwards vs the model. modulo_walk: 2*(mod+1)+3 consecutive +1 / -1 / "
               "mixed steps for generated (unit, mod, cmd, start): cyclic successor, stays in buffer, alignment bits fixed, one visit per "
               "cell per lap. Non-trivial = register changed and the case is inside the model; distinct by hash(opcode, state).",
          assumptions=["modulo addressing is specified only for +1 / -1 steps starting inside [base, base+mod]; other steps under modulo, starts "
@@ -153,8 +160,8 @@ reg(Spec("C09", "c09_loops.cpp", needs=("shim", "optable"),
               "sequence that steps down by one per iteration and ends at 0, with exactly N+1 iterations. frame_roundtrip: bkrepsto ; "
               "bkreprst ([arrn] and [sp]) with 0..4 active frames holding 18-bit addresses is the identity. Non-trivial = the loop "
               "executed more instructions than the program has words / N >= 1 / >= 1 active frame.",
-         assumptions=["a nested loop never ends on the same instruction as its enclosing loop and rep is never the last instruction of a block "
-                      "(programs real code cannot rely on either)", "interrupts off; bodies contain no control flow and do not touch lc/repc/sp",
+         assumptions=["a nested block repeat never ends on the same instruction as its enclosing block (a repeated single instruction may be the "
+                      "last instruction of a block, the rep instruction itself never is)", "interrupts off; bodies contain no control flow and do not touch lc/repc/sp",
                       "the iteration in which the counter is observed may see the value before or after that iteration's decrement"]))
 
 reg(Spec("C17", "c17_reset.cpp", needs=("shim", "optable"),
@@ -269,10 +276,13 @@ reg(Spec("C19", "c19_threads.cpp", variant="tsan", needs=("optable", "lib"), wor
               "empty polls, PeekRecvData, Set/Clear/Mask/GetSemaphore), each followed by a generated pause (none, yield, spin "
               "2..2000), DSP Run() slice sizes from {1,2,3,7,16,64,200,1000}, re-entrant host callbacks (RecvData / GetSemaphore / "
               "SendData from inside a handler); the DSP thread runs an echo program whose APBP handler reads all CMDi, replies, "
-              "echoes the semaphore, rewrites the interrupt-disable register and acknowledges. Oracle: ThreadSanitizer report "
+              "echoes the semaphore, rewrites the interrupt-disable register and acknowledges (a generated subset of the channels is "
+              "read; the others stay full after their first send). Oracle: ThreadSanitizer report "
               "(exit code 66) = violation; per reading thread the values read are sent values in non-decreasing order; after "
               "the join a fixed single-threaded drain (64 x Run(256)) must leave the last value of each channel on both sides "
-              "and >= 1 handler entry. Non-trivial = both threads observed each other's progress >= 3 times and >= 1 send; "
+              "and >= 1 handler entry; then one more SendData per channel, each followed by 4 x Run(128), must each be followed by a new "
+              "handler entry (also into a still-full mailbox) and, where the DSP echoes, by a new host callback (also into a still-full "
+              "reply mailbox), and its value must be observed. Non-trivial = both threads observed each other's progress >= 3 times and >= 1 send; "
               "distinct by hash of the schedule.",
          assumptions=["the OS scheduler is not owned: interleaving coverage is statistical (pauses and slice sizes perturb it); the race "
                       "clause does not share this weakness because ThreadSanitizer is happens-before based",
